@@ -301,7 +301,13 @@ def check(suite: Suite, tier: str, seed: int, replay: str | None = None, budget_
                     len(cases) - n_corpus, type(exc).__name__, str(exc)[:200]),
                 "log": "".join(traceback.format_exception(type(exc), exc, exc.__traceback__))[-3000:]})
     impl_out = [impl_safe(suite, c) for c in cases]
-    lines = [suite.model_line(c) for c in cases]
+    def model_line_safe(c):
+        try:
+            return suite.model_line(c)
+        except Exception as exc:      # a case whose device could not even be set up: the model is not asked
+            return "model-line-failed " + type(exc).__name__
+
+    lines = [model_line_safe(c) for c in cases]
     model_out = None
     if ok_b:
         try:
